@@ -240,6 +240,9 @@ def jobs(tier, seed):
         ('mix', L(('n',), ('b', True), ('s', 1)), L(('s', 1), ('n',), I())),
         ('leaf', I(2), I(1)),
         ('x-list-dict', L(I()), D(I())),
+        # YAML and pickle inputs can carry non-string mapping keys
+        ('Dint', ('dict', [(('i', 1), I()), (('i', 1), I(2))]), ('dict', [(('i', 1), I(2))])),
+        ('Dbool', ('dict', [(('b', True), I())]), ('dict', [(('b', False), I(2))])),
     ]
     if tier != 'quick':
         shapes += [('L32', L(I(), I(2), I()), L(I(), I())), ('D32', D(I(), I(2), I()), D(I(2), I())), ('DD', D(D(I()), I(2)), D(D(I(2)), D(I())))]
@@ -270,7 +273,7 @@ META = dict(functions=th.TREE_FUNCTIONS + ["get_default_formatter() of all 8 reg
 
 
 def bounds_text(tier):
-    return ("9 (thorough 12) generic document shapes x {auto, none} + the same under the plist wrapper + 3 CSV tables, leaf values "
+    return ("11 (thorough 14) generic document shapes (incl. integer / boolean mapping keys) x {auto, none} + the same under the plist wrapper + 3 CSV tables, leaf values "
             "symbolic during the diff; on every path all 24 formatter x mode combinations are rendered, the 6 printer x condensed variants "
             "rotating from path to path (all 144 configurations occur in every job); XML (3 pairs) and pydiff (4 pairs) documents rendered concretely in all 144 configurations")
 
